@@ -1,3 +1,6 @@
+#[cfg(kismet_verif)]
+#[allow(unused_imports)]
+use kismet_vfs::{filetime, libc, rand, std, tempfile};
 use std::borrow::Cow;
 use std::fs::File;
 use std::io::Error;
